@@ -614,6 +614,8 @@ def bytes_lit(b: bytes):
 
 def lift(v, ty: Ty | None = None) -> SV:
     """concrete Python value (or SV) -> SV of type `ty` (or its natural type)."""
+    if isinstance(v, z3.BoolRef):
+        v = SV(v, TBool)
     if isinstance(v, SV):
         if ty is None or v.ty == ty:
             return v
